@@ -26,6 +26,7 @@ type Env struct {
 	contract bool // evaluating a contract expression: no obligations, math semantics for int
 	locals   bool // contract may mention locals of the current frame by name
 	where    string
+	nonneg   map[*Term]bool // terms known to be >= 0 (bound variables of quantifiers with lower bound >= 0)
 }
 
 func (e *Env) info() *types.Info {
@@ -43,6 +44,12 @@ func (e *Env) sub(names map[string]Value) *Env {
 	}
 	for k, v := range names {
 		n.bound[k] = v
+	}
+	if e.nonneg != nil {
+		n.nonneg = map[*Term]bool{}
+		for k := range e.nonneg {
+			n.nonneg[k] = true
+		}
 	}
 	return &n
 }
@@ -1570,10 +1577,15 @@ func (e *Env) knownNonNeg(t *Term, depth int) bool {
 	case "bv2nat":
 		return true
 	}
+	if e.nonneg != nil && e.nonneg[t] {
+		return true
+	}
 	if e.st != nil {
-		zero := IntC(0)
 		for _, p := range e.st.pc {
-			if p.Op == "<=" && termEq(p.Args[0], zero) && termEq(p.Args[1], t) {
+			if p.Op == "<=" && p.Args[0].Op == "const" && p.Args[0].V.Sign() >= 0 && p.Args[1] == t {
+				return true
+			}
+			if p.Op == "<" && p.Args[0].Op == "const" && p.Args[0].V.Sign() >= -1 && p.Args[1] == t {
 				return true
 			}
 		}
